@@ -167,7 +167,8 @@ def buffer_scenarios(K, thorough):
             S.FANOUT_DELAY(K), S.BATCH(K, size=2, cap=3, sink_cycle=2), S.BATCH_DIRECT(K, cap=3, sink_cycle=1),
             S.TWOSRC(K), S.TWOSRC(K, eps=1e-9, delay=1, horizon=4), S.DELAY01_LONG(0), S.EMPTYBATCH(K),
             S.BUFBATCH(K, pattern=(3, 3, None), cap=5, size=None, sink_cycle=2), S.BUFGATE(K), S.EMPTYBATCH_SCRIPT(K),
-            S.BATCH(K, size=2, cap=6, sink_cycle=2), S.LOOP(K), S.LOOP(K, delay=0), S.BUF2_SCRIPT(K)]
+            S.BATCH(K, size=2, cap=6, sink_cycle=2), S.LOOP(K), S.LOOP(K, delay=0), S.BUF2_SCRIPT(K),
+            S.LOOP(K, delay=0, cap=6, pattern=(3, None)), S.LOOP(K, delay=1, cap=5, pattern=(2, 3))]
     return rows
 
 
@@ -235,7 +236,7 @@ class C08(Check):
                  S.BATCHGATE(K), S.BATCH_DIRECT(K), S.GATE(K), S.GATE_NONE(K), S.GRPBATCH(K), S.GRP_BLOCKED(K),
                  S.FANFAIL(2), S.GRPIN(K), S.REGRADE(K), S.FANGATE(2), S.REENT(K), S.REENT(K, src_cycle=1), S.GRP2(K, horizon=hg),
                  S.NEST_MID(K, horizon=hg), S.NEST_OUT(K, horizon=hg), S.BLOCK(K), S.BATCH(K), S.REWIRE(K), S.REWIRE2(K + 1), S.GATEGRP(K),
-                 S.GRPPASS(K), S.NEST_PASS(K), S.FANTOGGLE(K), S.FANTOGGLE2(K), S.FANOUT(K + 1), S.BLOCK0(K), S.FANFLOW(K), S.FANRES(K)]
+                 S.GRPPASS(K), S.NEST_PASS(K), S.FANTOGGLE(K), S.FANTOGGLE2(K), S.FANOUT(K + 1), S.BLOCK0(K), S.FANFLOW(K), S.FANRES(K), S.FANSINK(K)]
         return _line_jobs(specs, ['route'], tier) + _line_jobs([S.NESTBATCH(K)], ['route', 'nesthistory'], tier) + topo_jobs(['route'], tier)
 
 
@@ -372,7 +373,9 @@ class C17(Check):
                 specs.append(S.BATCH_DIRECT(K, pattern=pat, size=size, cap=4 if size else None, sink_cycle=1 if size else 0))
         specs += [S.BUFBATCH(K), S.BUFBATCH(K, pattern=(3, 2), cap=4, size=2), S.BATCHGATE(K), S.GRPBATCH(K), S.EMPTYBATCH(K),
                   S.BATCH(K, size=2, cap=6, sink_cycle=2), S.BUFBATCH(K, pattern=(3, 3, None), cap=5, size=None, sink_cycle=2),
-                  S.EMPTYBATCH_SCRIPT(K), S.BATCHSLOW(K)]
+                  S.EMPTYBATCH_SCRIPT(K), S.BATCHSLOW(K),
+                  # batches that re-enter the buffer inside its own hand-over (zero-time loop through a gate)
+                  S.LOOP(K, delay=0, cap=6, pattern=(3, None)), S.LOOP(K, delay=1, cap=5, pattern=(2, 3))]
         # nested batches: the history clause only (see scenarios.NESTBATCH)
         return _line_jobs(specs, ['batching', 'census', 'route'], tier) + _line_jobs([S.NESTBATCH(K)], ['route', 'nesthistory'], tier) + \
             topo_jobs(['batching', 'census', 'route'], tier, kinds=('batcher',))
@@ -458,6 +461,7 @@ class C19(Check):
         specs.append(S.SENS(K, interval=1, cap=2, n=0, burst=True, horizon=3))
         specs.append(S.SENS(K + 1, interval=2, cap=2, n=2, manual=True, horizon=6))
         specs.append(S.SENS(K, interval=1, cap=2, n=1, late_cb=True, cms_twice=False, horizon=4))
+        specs += [S.REENT_SENS(K, n=1), S.REENT_SENS(K, n=0)]
         # sensors and a CMS created while the line is running / between two runs: same schedule from their creation on
         late = S.LATE(1, creates=[[7], [8], [9]], horizon=4, name='sens')
         specs += [late, S.with_splits(late)]
@@ -616,6 +620,8 @@ class C14(Check):
         # assets created between the runs == the same assets created from an event at the split time
         jobs += _line_jobs([S.with_splits(S.LATE(1, horizon=3, creates=[[0, 1, 2], [6], [7], [10, 11]], name='c14'))],
                            ['splitinv', 'census', 'schedule', 'sensors', 'lifecycle'], tier)
+        # devices re-wired between the runs == the same re-wiring done by an event at the split time
+        jobs += _line_jobs([S.with_splits(S.REWIRE(K)), S.with_splits(S.REWIRE2(K))], ['splitinv', 'census', 'route'], tier)
         seeds = list(range(8 if not th else 24))
         for model in ('fan', 'merge', 'maint', 'res', 'group2', 'faults'):
             jobs.append(repro_job(f'SEED[{model}]', 'seed', model, seeds=seeds, offsets=[0, 1, 7], horizon=8))
